@@ -2,7 +2,8 @@
     Precondition as in the property: the initial account infos mirror the instruction's
     metas, and the fetcher returns the data the infos of the pool hold (and fails for keys
     that are not in the pool). *)
-From SplVerif Require Import Lib.Base Resolution.Seeds Resolution.Account Resolution.Proofs.
+From SplVerif Require Import Lib.Base Tlv.Model Resolution.Seeds Resolution.Account Resolution.Proofs MetaList.Model MetaList.Stored.
+From Coq Require Import Permutation.
 Local Open Scope N_scope.
 
 Theorem C08_agree : forall find_pda fetch pool cfgs ix pid infos metas,
@@ -28,6 +29,18 @@ Theorem C08_pool_order : forall find_pda p1 p2 cfgs ix pid, pools_equiv p1 p2 ->
   | _, _ => False
   end.
 Proof. exact pool_order_irrelevant. Qed.
+
+(** in particular: any permutation of a pool with one info per key *)
+Theorem C08_permuted_pool : forall pool pool', distinct_keys pool -> Permutation pool pool' -> pools_equiv pool pool'.
+Proof. exact permuted_pool_equiv. Qed.
+
+(** neither helper panics, whatever the stored account bytes *)
+Theorem C08_cpi_total : forall find_pda pool data t ix pid infos metas,
+  add_cpi_data find_pda pool data t ix pid infos metas <> Panic.
+Proof. exact add_cpi_data_total. Qed.
+Theorem C08_offchain_total : forall find_pda fetch data t ix pid metas, (forall k, fetch k <> Panic) ->
+  add_offchain_data find_pda fetch data t ix pid metas <> Panic.
+Proof. exact add_offchain_data_total. Qed.
 
 Example C08_nonvacuous :
   let fp := fun (_ : list (list byte)) (_ : key) => @None key in
